@@ -27,9 +27,12 @@ pub struct C35;
 
 pub const HOST: &str = "c35-pool.verif.test";
 
-/// address universe (indices 0..8): small on purpose so that answers overlap
+/// address universe (indices 0..10): small on purpose so that answers overlap
 pub fn universe(i: u8) -> IpAddr {
-    match i % 8 {
+    match i % 10 {
+        // IPv4-mapped IPv6 answers (an AAAA-only resolver path); 8 is the mapped form of entry 1
+        8 => IpAddr::V6(Ipv4Addr::new(127, 0, 0, 2).to_ipv6_mapped()),
+        9 => IpAddr::V6(Ipv4Addr::new(127, 0, 0, 9).to_ipv6_mapped()),
         0 => IpAddr::V4(Ipv4Addr::new(127, 0, 0, 1)),
         1 => IpAddr::V4(Ipv4Addr::new(127, 0, 0, 2)),
         2 => IpAddr::V4(Ipv4Addr::new(127, 0, 0, 3)),
@@ -117,7 +120,7 @@ pub fn to_answer(d: &Dns) -> Answer {
 
 fn dns_strategy() -> impl Strategy<Value = Dns> {
     prop_oneof![
-        10 => prop::collection::vec(0u8..8, 0..7).prop_map(Dns::Addrs),
+        10 => prop::collection::vec(prop_oneof![8 => 0u8..8, 2 => 8u8..10], 0..7).prop_map(Dns::Addrs),
         1 => Just(Dns::NoName),
         1 => Just(Dns::Again),
     ]
